@@ -212,7 +212,13 @@ def run_oracle_shard(args):
     req = f'{work}/{b}.{unit}.req'
     if not os.path.exists(req) or os.path.getsize(req) == 0:
         return ''
-    cmd = f'{HARNESS}/target/rel/{b} < {req} | python3-vt {VERIF}/tools/oracle_mp.py'
+    # judge the answers the correspondence step already collected (release profile); running the implementation a second time would hang
+    # wherever a call does not return (the correspondence step has a per-shard timeout and reports that call)
+    ans = f'{work}/{b}.{unit}.rel.ans'
+    if os.path.exists(ans):
+        cmd = f'python3-vt {VERIF}/tools/oracle_mp.py < {ans}'
+    else:
+        cmd = f'timeout 600 {HARNESS}/target/rel/{b} < {req} | python3-vt {VERIF}/tools/oracle_mp.py'
     p = subprocess.run(['bash', '-o', 'pipefail', '-c', cmd], stdout=subprocess.PIPE, stderr=subprocess.STDOUT, text=True)
     if p.returncode != 0:
         return 'ERROR oracle rc=%d %s' % (p.returncode, p.stdout[-500:])
